@@ -50,7 +50,10 @@ impl Object for Encoding {
                             }
                             Primitive::Name(name) => {
                                 differences.insert(gid, name);
-                                gid += 1;
+                                gid = match gid.checked_add(1) {
+                                    Some(next) => next,
+                                    None => bail!("character code out of range in Differences"),
+                                };
                             }
                             _ => bail!("Unknown part primitive in dictionary: {:?}", part),
                         }
